@@ -428,6 +428,33 @@ theorem popall_present (l : List (K × V)) (k : K) (d : Option V) (v : V) (h : f
     Spec.step l (Op.popall k d) = (remove l k, .val v) := by
   simp [Spec.step, h]
 
+/-! ### `update` -/
+
+theorem foldl_assign_other (ps : List (K × V)) (k : K) (h : hasKey ps k = false) : ∀ l : List (K × V),
+    valuesOf (ps.foldl (fun l p => assign l p.1 p.2) l) k = valuesOf l k := by
+  induction ps with
+  | nil => intro l; rfl
+  | cons p r ih =>
+    intro l
+    rw [hasKey_cons] at h
+    have hp : p.1 ≠ k := by intro e; simp [e] at h
+    have hr : hasKey r k = false := by
+      cases hd : decide (p.1 = k) <;> simp_all
+    simp only [List.foldl_cons]
+    rw [ih hr, assign_other _ _ _ _ hp]
+
+/-- `update(pairs)`: afterwards a key has exactly one value, the one of its last pair in the argument … -/
+theorem update_values_last (l ps1 ps2 : List (K × V)) (k : K) (v : V) (h : hasKey ps2 k = false) :
+    valuesOf (Spec.step l (Op.update (ps1 ++ (k, v) :: ps2))).1 k = [v] := by
+  simp only [Spec.step, List.foldl_append, List.foldl_cons]
+  rw [foldl_assign_other ps2 k h, assign_values]
+
+/-- … and keys the argument does not mention keep all their values -/
+theorem update_values_other (l ps : List (K × V)) (k : K) (h : hasKey ps k = false) :
+    valuesOf (Spec.step l (Op.update ps)).1 k = valuesOf l k := by
+  simp only [Spec.step]
+  exact foldl_assign_other ps k h l
+
 /-- Non-vacuity: a concrete history with duplicates inserted in the middle. -/
 example :
     (run (empty : OMD Nat Nat)
